@@ -52,6 +52,8 @@ contract(
                   "len(self._scoreboard) == ite(trunc((secs(self.interval_end) - secs(self.interval_start)) / self.period) + 1 >= 1, "
                   "trunc((secs(self.interval_end) - secs(self.interval_start)) / self.period) + 1, 1))"),
         ("clean", "implies(old(self._dirty), not self._dirty)"),
+        # C16: a full reset installs a newly allocated counter list (never one shared with another limit)
+        ("fresh-counters", "implies(old(self._dirty) and index is None, isfresh(self._scoreboard))"),
         ("noop", "implies(not old(self._dirty), self._scoreboard == old(self._scoreboard) and len(self._scoreboard) == old(len(self._scoreboard)))"),
         ("frame", "self.value == old(self.value) and self.period == old(self.period) and self.upper == old(self.upper) "
                   "and self.slot_duration == old(self.slot_duration) and self.interval_start == old(self.interval_start) "
